@@ -78,12 +78,45 @@ def _aseed(rng):
 
 
 def _arr(desc, name, shape, kind="complex"):
+    """Parameter array of a leaf.  Most are Gaussian; a share (selected by the leaf's seed)
+    has structure that random data never has: unit-modulus entries (random phases, or only
+    +-1 / +-i), all ones, a constant, a single non-zero entry, a 0/1 mask."""
     rng = np.random.default_rng([desc["aseed"], sum(map(ord, name))])
+    st = int(desc["aseed"]) % 11
+    n = int(np.prod(shape)) if len(shape) else 1
     if kind == "complex":
+        if st == 1:
+            return np.exp(2j * np.pi * rng.random(shape))
+        if st == 2:
+            return np.ones(shape, complex)
+        if st == 3:
+            return np.asarray(1j ** rng.integers(0, 4, shape), complex).reshape(shape)
+        if st == 4:
+            return np.full(shape, complex(rng.standard_normal(), rng.standard_normal()))
+        if st == 5 and n:
+            out = np.zeros(n, complex)
+            out[int(rng.integers(n))] = complex(rng.standard_normal(), rng.standard_normal())
+            return out.reshape(shape)
         return rng.standard_normal(shape) + 1j * rng.standard_normal(shape)
     if kind == "real":
+        if st in (1, 3):
+            return np.asarray(rng.integers(0, 2, shape) * 2.0 - 1.0).reshape(shape)
+        if st == 2:
+            return np.ones(shape)
+        if st == 4:
+            return np.full(shape, float(rng.standard_normal()))
+        if st == 5 and n:
+            out = np.zeros(n)
+            out[int(rng.integers(n))] = float(rng.standard_normal())
+            return out.reshape(shape)
         return rng.standard_normal(shape)
     if kind == "pos":
+        if st == 2:
+            return np.ones(shape)
+        if st == 5 and n:
+            out = np.asarray(rng.integers(0, 2, shape), float).reshape(shape)
+            out.reshape(-1)[0] = 1.0
+            return out
         return rng.random(shape) + 0.1
     raise ValueError(kind)
 
